@@ -589,6 +589,11 @@ class Interp:
                 return self.B.concat_strs(self, [self.ctx.to_val(a), self.ctx.to_val(b)])
             if isinstance(op, ast.Add) and (b is None or isinstance(b, (bool, int, float, VTuple, VList, VDict, VSet)) or (isinstance(b, SV) and isinstance(b.ty, (TNum, TBool, TNone)))):
                 raise PyRaise(self.make_exception(ExternalRef("TypeError"), ["can only concatenate str (not a number / None / container) to str"]))
+            if isinstance(op, (ast.Sub, ast.Div, ast.FloorDiv, ast.Pow, ast.MatMult, ast.BitAnd, ast.BitOr, ast.BitXor, ast.LShift)) and (
+                    b is None or isinstance(b, (bool, int, float, str, VTuple, VList, VDict, VSet, ClassInfo, ExternalRef)) or type(b).__name__ in ("TypeOf", "Builtin")
+                    or (isinstance(b, SV) and isinstance(b.ty, (TNum, TBool, TNone, TStr)))):
+                # str defines none of these operators, and the right operand is of a kind that has no reflected version either
+                raise PyRaise(self.make_exception(ExternalRef("TypeError"), ["unsupported operand type(s) for a str"]))
             raise Unsupported("string operator %s" % op.__class__.__name__)
         if isinstance(a, (VTuple, VList)) and isinstance(b, (VTuple, VList)) and isinstance(op, ast.Add):
             return a.__class__(a.items + b.items)
